@@ -192,6 +192,14 @@ func (r *Reader) eachByte(b byte) {
 		return
 	}
 
+	// a status byte cancels a channel message or system common message that is not complete
+	if midilib.IsStatusByte(b) && (r.state == readerStateWithinChannelMessage || r.state == readerStateWithinSysCommon) {
+		r.issetBf = false
+		r.state = readerStateClean
+		r.cleanState(b)
+		return
+	}
+
 	//fmt.Printf("state: %v\n", p.state)
 
 	switch r.state {
